@@ -19,7 +19,7 @@ fn viol(oracle: &str, witness: String, message: String) -> Option<Violation> {
     Some(Violation { oracle: oracle.into(), witness, message })
 }
 
-fn tid_of_sim_id(sc: &Scenario, id: &str) -> Option<Tid> {
+pub fn tid_of_sim_id(sc: &Scenario, id: &str) -> Option<Tid> {
     let rest = id.strip_prefix('p')?;
     let (p, name) = rest.split_once('.')?;
     let p: usize = p.parse().ok()?;
@@ -440,7 +440,17 @@ impl Property for C01 {
     fn generate(&self, rng: &mut Rng, _case: u64) -> Scenario {
         let mut sc = gen::gen_graph(rng, &GraphOpts { max_n: 10, ..Default::default() });
         let args = gen::gen_request(rng, &sc);
-        let inv = standard_invocation(rng, &sc, args);
+        let mut inv = standard_invocation(rng, &sc, args);
+        if rng.chance(25) {
+            // a dependency that does not finish successfully: dependents must not start
+            let req = model::requested(&sc, 0, &inv.args);
+            let clo: Vec<Tid> = model::closure(&sc, &req).into_iter().filter(|t| model::kind_of(&sc, t) == Some(Kind::Build)).collect();
+            if !clo.is_empty() {
+                let t = rng.pick(&clo).clone();
+                let kind = if rng.chance(50) { "sig=9".to_string() } else { format!("exit={}", rng.range(1, 3)) };
+                inv.plan.faults.push(Fault { site: format!("proc.exit:{}", sc.sim_id(t.0, &t.1)), occurrence: 1, kind });
+            }
+        }
         sc.steps.push(Step::Invoke(inv));
         sc
     }
